@@ -325,9 +325,12 @@ fn expand_enum(
         }
     }
 
+    // Explicit `bound(...)` predicates written on the enum itself.
+    let enum_bounds = container_attrs.common.bounds.0.clone().into_iter().collect();
+
     let (bounds, match_arms) = e.variants.iter().try_fold(
-        (Vec::new(), TokenStream::new()),
-        |(mut bounds, mut arms), variant| {
+        (enum_bounds, TokenStream::new()),
+        |(mut bounds, mut arms): (Vec<_>, _), variant| {
             let mut attrs = ContainerAttributes::parse_attrs(&variant.attrs, attr_name)?
                 .map(Spanning::into_inner)
                 .unwrap_or_default();
